@@ -260,7 +260,11 @@ package jet
 //@   loop 3 invariant true
 //@ func isTrue
 //@   props C10 C07 C12 C05 C04
-//@   ensures [truthy-is-valid-and-not-the-zero-value] {C05} result == (RvValid(v) && !RvIsZero(v))
+//@   ensures [truthy-is-valid-and-not-the-zero-value] {C05} RvKind(v) != 20 ==> result == (RvValid(v) && !RvIsZero(v))
+//@   ensures [a-value-held-in-an-interface-is-as-truthy-as-the-value] {C05} RvKind(v) == 20 ==> result == (RvValid(RvElem(v)) && !RvIsZero(RvElem(v)))
+//@   ensures [zero-false-and-the-empty-string-are-falsy] {C05} RvValid(v) && ((KInt(RvKind(v)) && RvInt(v) == 0) || (RvKind(v) == 1 && !RvBool(v)) || (RvKind(v) == 24 && RvLen(v) == 0)) ==> !result
+//@   ensures [zero-false-and-the-empty-string-are-falsy-inside-an-interface] {C05} RvKind(v) == 20 && RvValid(RvElem(v)) && ((KInt(RvKind(RvElem(v))) && RvInt(RvElem(v)) == 0) || (RvKind(RvElem(v)) == 1 && !RvBool(RvElem(v))) || (RvKind(RvElem(v)) == 24 && RvLen(RvElem(v)) == 0)) ==> !result
+//@   ensures [nil-is-falsy] {C05} !RvValid(v) || (RvKind(v) == 20 && !RvValid(RvElem(v))) ==> !result
 //@ func canNumber
 //@   props C10 C07 C12
 //@   nopanic
